@@ -250,7 +250,10 @@ let run_op (c : cache) (op : string) (args : string list) (qs : string list arra
   | "reresolve" ->
       let c1 = if a 0 = "_" then c else
         List.fold_left (fun c x -> match split_on ':' x with
-          | [sid; rm] -> re_resolve c (nn (int_of_string sid)) (rm = "1") | _ -> raise (Parse x)) c (split_on '/' (a 0)) in
+          | [sid; rm] ->
+              (* outcome of the store check: 0 confirmed, 1 removed, 2 GetStore failed transiently (nothing changes) *)
+              store_check c (nn (int_of_string sid)) (match rm with "1" -> RoRemoved | "2" -> RoTransient | _ -> RoOk)
+          | _ -> raise (Parse x)) c (split_on '/' (a 0)) in
       ("ok", c1, 0)
   | "lbucket" ->
       fin (find_region_by_key pd budget fuel t0 c (bytes_of_hex (a 0)) false)
